@@ -153,8 +153,11 @@ class Daemon:
 
 
 def wait_for(pred, timeout, step=0.02):
-    t0 = time.time()
+    t0 = tick = time.time()
     while time.time() - t0 < timeout:
+        gap, tick = time.time() - tick, time.time()
+        if gap > 5.0:                    # this process was not running (see wait_progress): not counted
+            t0 += gap
         if pred():
             return True
         time.sleep(step)
@@ -165,9 +168,15 @@ def wait_progress(pred, progress, idle=60.0, cap=900.0, step=0.05):
     """Waits until `pred()`; gives up only when `progress()` (any monotone counter: requests seen by
     the CA, hook records, …) has not moved for `idle` seconds, or after `cap` seconds.  A busy machine
     makes a run slow, not stuck: a fixed time-out would report slowness as a failure."""
-    t0 = last_t = time.time()
+    t0 = last_t = tick = time.time()
     last = progress()
+    shifted = 0.0
     while time.time() - t0 < cap * load_factor():
+        # a turn of this loop that took seconds means THIS process was not running (machine suspended for a
+        # snapshot, process stopped): that time says nothing about the daemon, so it is not counted as quiet
+        gap, tick = time.time() - tick, time.time()
+        if gap > 5.0 and shifted < 600.0:
+            t0, last_t, shifted = t0 + gap, last_t + gap, shifted + gap
         if pred():
             return True
         now = progress()
